@@ -7,18 +7,13 @@
 
 void tinyjambu_permutation_128(tinyjambu_128_state_t *state, unsigned rounds)
 {
-    u128 r = __CPROVER_uninterpreted_perm128(PACK4(state->s), PACK4(state->k), rounds);
-    UNPACK4(state->s, r);
+    UF_APPLY(128, state->s, state->k, rounds);
 }
 void tinyjambu_permutation_192(tinyjambu_192_state_t *state, unsigned rounds)
 {
-    u128 r = __CPROVER_uninterpreted_perm192(PACK4(state->s), PACK4(state->k),
-                 (uint64_t)state->k[4] | ((uint64_t)state->k[5] << 32), rounds);
-    UNPACK4(state->s, r);
+    UF_APPLY(192, state->s, state->k, rounds);
 }
 void tinyjambu_permutation_256(tinyjambu_256_state_t *state, unsigned rounds)
 {
-    u128 r = __CPROVER_uninterpreted_perm256(PACK4(state->s), PACK4(state->k),
-                 PACK4(state->k + 4), rounds);
-    UNPACK4(state->s, r);
+    UF_APPLY(256, state->s, state->k, rounds);
 }
